@@ -271,17 +271,18 @@ theorem packInts_pop_remove (size : Nat) (hper : 0 < 32 / size) (hmul : 32 / siz
       (nums.length - 1) / (32 / size) = (packInts size nums).length - 1 := by
   have hne : nums ≠ [] := List.ne_nil_of_length_pos hpos
   constructor
-  · conv => rhs; rw [← List.dropLast_append_getLast hne]
+  · conv => rhs; rw [← List.dropLast_concat_getLast hne]
     rw [packInts_append_new size hper hmul _ _ (by simpa using hz), List.dropLast_concat]
   · have e : nums.length = nums.length - 1 + 1 := by omega
     rw [packInts_length _ hper]
     conv => rhs; rw [e, ceil_div_succ _ _ hper]
-    omega
+    rw [Nat.add_sub_cancel]
 
 theorem spliceBytes_zero_zero (size : Nat) (hs : size ≤ 32) :
     spliceBytes size zeroChunk 0 0 = zeroChunk := by
   simp only [spliceBytes, Nat.mul_zero, List.take_zero, List.nil_append, Nat.zero_add,
-    Nat.mul_one, drop_zeroChunk, toLE_zero, ← zeros_add, zeroChunk]
+    Nat.mul_one, toLE_zero]
+  rw [drop_zeroChunk, ← zeros_add, zeroChunk]
   congr 1; omega
 
 end Rmk.StepRepr
